@@ -1,4 +1,5 @@
-import PytypeModel.Proofs.SolverReach
+import PytypeModel.Proofs.SolverWF
+import PytypeModel.Proofs.SolverBfs
 import PytypeModel.Typegraph.Program
 
 /-! # C07 — the typegraph solver decides binding visibility correctly
@@ -28,11 +29,63 @@ theorem solve_keeps_inv (g : Graph) (hnc : g.NoConditions) (memo : Memo) (hm : M
     (n : NodeId) (attrs : List BId) : MemoInv g (solve g memo n attrs).2 [] :=
   (solve_sound g hnc memo n attrs hm).1
 
+/-- **accepted ⇒ every goal individually reachable**, for every well-formed *acyclic* graph — node
+conditions, multiple origins and source sets allowed. -/
+theorem solve_goals_reachable_acyclic (g : Graph) (rank : NodeId → Nat) (hwf : g.WF)
+    (hac : g.AcyclicBy rank) (n : NodeId) (attrs : List BId)
+    (h : (solve g [] n attrs).1 = true) : ∀ b ∈ attrs, GoalReachable g n b :=
+  (solve_sound_acyclic hwf hac [] n attrs (memoInv2_nil g [])).2 h
+
+/-- every graph built through the Python entry points (any well-formed history) is well-formed, so `g.WF`
+is no restriction on the graphs pytype can construct. -/
+theorem built_graph_wf (addrs : List Nat) (ops : List Op) (h : wfHistory (PState.init addrs) ops = true) :
+    ((PState.init addrs).run ops).g.WF := wf_run addrs ops h
+
+/-- **the memoised search computes the memo-free recursion** on well-formed acyclic graphs: `Solve` on a
+fresh solver equals `solveVal`, which is defined from `spec` alone, and `spec` unfolds by `stepVal`
+(goal removal at the node, then `any` over the new positions) — no memo, no stack, no cycle skip. -/
+theorem solve_eq_memo_free (g : Graph) (rank : NodeId → Nat) (hwf : g.WF) (hac : g.AcyclicBy rank)
+    (n : NodeId) (attrs : List BId) : (solve g [] n attrs).1 = solveVal g rank n attrs :=
+  (solve_spec hwf hac [] n attrs (memoInv3_nil _ _)).2
+
+theorem spec_unfold (g : Graph) (rank : NodeId → Nat) (hwf : g.WF) (hac : g.AcyclicBy rank)
+    (st : SState) : spec g rank st = stepVal g (spec g rank) st := by
+  have hinv : MemoInv3 (spec g rank) (Memo.set [] st true) (st :: []) := by
+    intro s b hs
+    rw [Memo.find_set] at hs
+    split at hs
+    · rename_i heq; subst heq; exact Or.inl List.mem_cons_self
+    · simp [Memo.find] at hs
+  have hrec : RecOK3 rank (spec g rank) (rank st.pos) (recall g (rank st.pos)) :=
+    fun stack memo st' hlt hm hab => recall_spec hwf hac st' _ hlt stack memo hm hab
+  have h2 := (findSolution_pure hwf hac (spec g rank) (recall g (rank st.pos)) [] _ st hrec hinv
+    (above_nil rank _)).2
+  rw [← h2]
+  unfold spec recall
+  simp only [Memo.find]
+
 /-- the path finder only reports paths that exist: `FindNodeBackwards(start, finish, blocked).path_exists`
-implies `finish` is backward reachable from `start` (all graphs). -/
+implies `finish` is backward reachable from `start`, and so is every condition node it reports (all graphs). -/
 theorem find_node_backwards_sound (g : Graph) (start fin : NodeId) (blocked : List NodeId)
-    (h : (findNodeBackwards g start fin blocked).1 = true) : BackReach g start fin :=
-  findNodeBackwards_sound g start fin blocked h
+    (h : (findNodeBackwards g start fin blocked).1 = true) :
+    BackReach g start fin ∧ ∀ x ∈ (findNodeBackwards g start fin blocked).2, BackReach g start x :=
+  ⟨findNodeBackwards_sound g start fin blocked h, findNodeBackwards_cpath_reach g start fin blocked⟩
+
+/-- **the path finder decides clear paths exactly** (every graph, cycles included; the fuel bound
+`bfsFuel = E + 2` is proved sufficient): `FindNodeBackwards(start, finish, blocked).path_exists` iff there is
+a backward path from `start` to `finish` none of whose nodes other than `finish` is blocked — "no variable
+in the set is re-bound in between". -/
+theorem find_node_backwards_iff (g : Graph) (start fin : NodeId) (blocked : List NodeId) :
+    (findNodeBackwards g start fin blocked).1 = true ↔ ClearPath g blocked start fin :=
+  findNodeBackwards_iff g start fin blocked
+
+/-- `remove_finished_goals` on a well-formed graph: what is removed originates at the node, what remains
+does not, and every input goal is one or the other (all graphs). -/
+theorem remove_finished_goals_sound (g : Graph) (hwf : g.WF) (pos : NodeId) (goals R N : List BId)
+    (h : (R, N) ∈ removeFinishedGoals g pos goals) :
+    (∀ b ∈ R, (g.findOrigin b pos).isSome) ∧ (∀ b ∈ N, g.findOrigin b pos = none) ∧
+    (∀ b ∈ goals, b ∈ R ∨ b ∈ N) :=
+  removeFinishedGoals_inv hwf pos goals h
 
 /-! ### the clause is false with conditions on a cycle (known finding c07-provisional-true)
 
@@ -63,9 +116,10 @@ theorem solve_goals_reachable_not_full :
 
 /-! ### statements not (yet) proved
 
--- OPEN  solve_iff_expl : g.WF → g.Acyclic → g.NoConditions → ((solve g [] n G).1 = true ↔ Expl g n (ofList G))
+-- OPEN  solve_iff_expl : g.WF → g.AcyclicBy rank → g.NoConditions → ((solve g [] n G).1 = true ↔ Expl g n (ofList G))
+--       (proved so far: solve = the memo-free recursion `solveVal`/`stepVal`; missing: `stepVal ↔ Expl`, i.e.
+--        `trav` ↔ `Removal` and completeness of the BFS w.r.t. `ClearPath`)
 -- OPEN  solve_subset   : g.WF → g.Acyclic → g.NoConditions → (solve g [] n G).1 = true → G' ⊆ G → (solve g [] n G').1 = true
--- OPEN  solve_goals_reachable_acyclic : g.WF → g.Acyclic → (solve g [] n G).1 = true → ∀ b ∈ G, GoalReachable g n b
 -- OPEN  solve_complete_cond : g.Acyclic → ExplCond g n G → (solve g [] n G).1 = true
 These are covered by the search stage's independent path-enumerating reference on the real answers only. -/
 
